@@ -142,6 +142,13 @@ def complex_arg(d, p, fn):
         else:
             # (a + bi)/sc rounded to p bits: modulus 1 up to rounding
             z = (exact.round_rational(a[1] * (-1) ** a[0], sc, p, "n"), exact.round_rational(b[1] * (-1) ** b[0], sc, p, "n"))
+            if d.bool():
+                # move off the circle by a relative 2^-kk: |z|^2 - 1 of order 2^-kk (moderate cancellation in log|z|)
+                kk = d.int(8, 60)
+                i = d.int(0, 1)
+                t = z[i]
+                t = exact.mk(t[0], t[1] * ((1 << kk) + d.choice([1, -1])), t[2] - kk)
+                z = (t, z[1]) if i == 0 else (z[0], t)
     else:
         z = (comp(5, 30), comp(5, 30))
     if fn in EXPLIKE:
@@ -470,7 +477,9 @@ def check_case(c):
         inexact = any(t[3] > p - 2 for t in ref if t[1])
         res.nontrivial = True
         if not ok:
-            res.bad("acc:%s:%s" % (fn, "real" if a[0] == "mpf" else "complex"),
+            # the known log-near-the-unit-circle defect loses at most a few bits; beyond 2^8 ulp it is a different failure
+            kind_ = "acc-gross" if (fn in ("ln", "log", "log10") and worst > 8) else "acc"
+            res.bad("%s:%s:%s" % (kind_, fn, "real" if a[0] == "mpf" else "complex"),
                     "%s = %s; reference (%s, %s); error about 2^%d ulp (%s, metric %s)" % (
                         what, str(got)[:160], exact.raw_str(ref[0])[:60], exact.raw_str(ref[1])[:60], worst, which, metric))
         return res
